@@ -1402,6 +1402,10 @@ protected:
       }
 
       // Skip chunk data + trailing \r\n
+      if (chunkSize > data.length() - pos)
+      {
+        return std::string::npos; // Need more data (and chunkSize + 2 cannot wrap)
+      }
       pos += chunkSize + 2;
       if (pos > data.length())
       {
